@@ -18,7 +18,7 @@ RULE_TEXT = ("Two workflow instances (A with num_concurrent_runs 1..4, B with it
 COMPONENTS = {"real": ["workflows.* engine, BasicRuntime._maybe_acquire_max_concurrent_runs"], "stub": ["llama_index_instrumentation"],
               "sim": ["loop, clock"]}
 ASSUMPTIONS = ["a run 'executes' from the moment its control loop starts until it exits (the limit is held for that whole span)"]
-EXPECTED_PROBES = ["run-had-to-wait", "limit-reached", "slot-released-by-failure", "slot-released-by-cancel"]
+EXPECTED_PROBES = ["address-reused-by-new-instance", "run-had-to-wait", "limit-reached", "slot-released-by-failure", "slot-released-by-cancel"]
 LEVEL_TEXT = "Seeded exploration of start instants/durations/exit paths; oracle counts live control loops per instance from the runner registry."
 LEVEL_NOTE = "Trusted: simulator loop, runner registry."
 
@@ -34,10 +34,80 @@ def gen(tape, cfg):
     ]
     return {"steps": steps, "types": ["E0"], "timeout": None, "driver": "result", "disable_validation": False,
             "limit_a": tape.rng_int(1, 4, "limit.a"), "limit_b": tape.choice([None, 1, 2], "limit.b"),
-            "n_a": tape.rng_int(2, 8, "n.a"), "n_b": tape.rng_int(0, 4, "n.b")}
+            "n_a": tape.rng_int(2, 8, "n.a"), "n_b": tape.rng_int(0, 4, "n.b"),
+            "generations": tape.choice([None, None, (4, 1), (3, 2), (1, 3), (2, 1)], "generations"), "n_gen": tape.rng_int(2, 5, "n.gen")}
+
+
+class AddressSpace:
+    """Seam for one more source of nondeterminism: object addresses.  BasicRuntime keys its semaphores by id(workflow); whether a
+    new instance gets the address of a dead one is the allocator's choice.  Here id() (the name bound in workflows.plugins.basic)
+    hands out small integers and REUSES the address of an instance as soon as that instance has really been collected
+    (weakref.finalize), lowest free address first: the most adversarial legal allocator, and a deterministic one."""
+
+    def __init__(self) -> None:
+        self.addr: dict[int, int] = {}
+        self.free: list[int] = []
+        self.next = 1
+        self.reused = 0
+
+    def id(self, obj) -> int:
+        import weakref
+        rid = _REAL_ID(obj)
+        a = self.addr.get(rid)
+        if a is not None:
+            return a
+        if self.free:
+            a = self.free.pop(0)
+            self.reused += 1
+        else:
+            a = self.next
+            self.next += 1
+        self.addr[rid] = a
+        try:
+            weakref.finalize(obj, self._release, rid, a)
+        except TypeError:
+            pass
+        return a
+
+    def _release(self, rid: int, a: int) -> None:
+        if self.addr.pop(rid, None) is not None:
+            self.free.append(a)
+            self.free.sort()
+
+
+_REAL_ID = id
+
+
+async def _generation(world, spec, tag: str, limit, n: int) -> None:
+    """one short-lived workflow instance: n overlapping runs, all awaited, then every reference dropped"""
+    wf = build_workflow(spec, world, num_concurrent_runs=limit)
+    hs = []
+    for i in range(n):
+        rid = f"{tag}{i}"
+        world.trace.log("run-requested", run=rid, inst=tag, fate="ok")
+        hs.append(wf.run(start_event=EV.Start0(uid=world.uid()), run_id=rid))
+    await asyncio.gather(*[h._result_task for h in hs], return_exceptions=True)
+    await world.loop.quiesce()
 
 
 async def scenario(world, spec):
+    import gc
+    import weakref
+    import workflows.plugins.basic as basic_mod
+    space = AddressSpace()
+    basic_mod.id = space.id          # module-level name lookup: the seam
+    world._space = space
+    if spec.get("generations"):
+        # a dead instance's address is handed to the next instance: limits must not be inherited
+        g1, g2 = spec["generations"]
+        await _generation(world, spec, "G", g1, spec["n_gen"])
+        world.live_runners.clear()
+        gc.collect()
+        await _generation(world, spec, "H", g2, spec["n_gen"])
+        world.live_runners.clear()
+        gc.collect()
+        if space.reused:
+            world.probe("address-reused-by-new-instance")
     wa = build_workflow(spec, world, num_concurrent_runs=spec["limit_a"])
     wb = build_workflow(spec, world, num_concurrent_runs=spec["limit_b"])
     plan = [("A", i) for i in range(spec["n_a"])] + [("B", i) for i in range(spec["n_b"])]
@@ -97,6 +167,9 @@ def check(world, spec, outcome) -> None:
     recs = world.trace.recs
     limit = {"A": spec["limit_a"], "B": spec["limit_b"]}
     live: dict[str, set] = {"A": set(), "B": set()}
+    if spec.get("generations"):
+        limit["G"], limit["H"] = spec["generations"]
+        live["G"], live["H"] = set(), set()
     requested: dict[str, float] = {}
     started = set()
     waited = False
@@ -127,14 +200,14 @@ def check(world, spec, outcome) -> None:
             elif fates.get(f["run"]) == "cancel":
                 world.probe("slot-released-by-cancel")
         elif kind == "stable":
-            for inst in ("A", "B"):
+            for inst in sorted(live):
                 pending = [r for r in requested if r[0] == inst and r not in started]
                 cap = limit[inst]
                 if pending and (cap is None or len(live[inst]) < cap):
-                    other = "B" if inst == "A" else "A"
-                    world.violate("C30.cross-instance" if live[other] else "C30.starved",
+                    others = sorted(r for o in live if o != inst for r in live[o])
+                    world.violate("C30.cross-instance" if (others or inst in "GH") else "C30.starved",
                                   f"instance {inst} has waiting runs {pending} while only {len(live[inst])} of {cap} slots are used "
-                                  f"(other instance live: {sorted(live[other])})", seq)
+                                  f"(other instances live: {others})", seq)
         elif kind == "quiescent" and f.get("phase") == "end":
             for r in requested:
                 if r not in started:
@@ -143,4 +216,8 @@ def check(world, spec, outcome) -> None:
 
 
 def run(tape):
-    return simulate(tape, CFG, check, gen=gen, scenario=scenario, setup=setup, nontrivial=lambda w, s, o: w._nt)
+    import workflows.plugins.basic as basic_mod
+    try:
+        return simulate(tape, CFG, check, gen=gen, scenario=scenario, setup=setup, nontrivial=lambda w, s, o: w._nt)
+    finally:
+        basic_mod.__dict__.pop("id", None)
